@@ -294,6 +294,14 @@ class Executor:
   def oos(self, why, node=None):
     raise OutOfSubset(why, node)
 
+  def at(self, node):
+    """Position tag for obligation names: line offset inside the function being executed (not
+    the absolute line, which would rename obligations whenever code elsewhere in the file moves)."""
+    ln = getattr(node, 'lineno', None)
+    if ln is None or not self.frames:
+      return 'L?'
+    return f'L+{ln - self.frame.fdef.lineno}'
+
   def py_raise(self, cls, node=None, args=None, note=None):
     raise PyRaise(VExc(cls, args=args or [], note=note))
 
@@ -385,7 +393,7 @@ class Executor:
     if lk is not None and not isinstance(w, VNone):
       if isinstance(w, VOpt) and not isinstance(lk, KOpt):
         self.path.oblige(f'{self.contract.qual}/safety/{name}_not_none'
-                         f'#{getattr(node, "lineno", 0)}', z3.Not(w.is_none))
+                         f'#{self.at(node)}', z3.Not(w.is_none))
         self.path.assume(z3.Not(w.is_none))
         w = w.inner
       w = coerce(self.world.materialize(self, w, lk), lk)
@@ -960,7 +968,7 @@ class Executor:
       it.source = v
       return it
     if isinstance(v, VOpt):
-      self.path.oblige(f'{self.contract.qual}/safety/iter_not_none#{getattr(node, "lineno", 0)}',
+      self.path.oblige(f'{self.contract.qual}/safety/iter_not_none#{self.at(node)}',
                        z3.Not(v.is_none))
       self.path.assume(z3.Not(v.is_none))
       return self.as_iter(v.inner, node)
@@ -1329,12 +1337,12 @@ class Executor:
 
   def binop(self, op, a, b, node):
     if isinstance(a, VOpt):
-      self.path.oblige(f'{self.contract.qual}/safety/operand_not_none#{node.lineno}',
+      self.path.oblige(f'{self.contract.qual}/safety/operand_not_none#{self.at(node)}',
                        z3.Not(a.is_none))
       self.path.assume(z3.Not(a.is_none))
       a = a.inner
     if isinstance(b, VOpt):
-      self.path.oblige(f'{self.contract.qual}/safety/operand_not_none#{node.lineno}',
+      self.path.oblige(f'{self.contract.qual}/safety/operand_not_none#{self.at(node)}',
                        z3.Not(b.is_none))
       self.path.assume(z3.Not(b.is_none))
       b = b.inner
@@ -1464,7 +1472,7 @@ class Executor:
     if isinstance(coll, VDict):
       return coll.has(x)
     if isinstance(coll, VOpt):
-      self.path.oblige(f'{self.contract.qual}/safety/in_not_none#{node.lineno}',
+      self.path.oblige(f'{self.contract.qual}/safety/in_not_none#{self.at(node)}',
                        z3.Not(coll.is_none))
       self.path.assume(z3.Not(coll.is_none))
       return self.contains(coll.inner, x, node)
@@ -1499,7 +1507,7 @@ class Executor:
     if isinstance(obj, (VList, VDict, VStr, VTuple)):
       return VPy('method', (obj, attr))
     if isinstance(obj, VOpt):
-      self.path.oblige(f'{self.contract.qual}/safety/attr_not_none#{node.lineno}',
+      self.path.oblige(f'{self.contract.qual}/safety/attr_not_none#{self.at(node)}',
                        z3.Not(obj.is_none))
       self.path.assume(z3.Not(obj.is_none))
       return self.get_attr(obj.inner, attr, node)
@@ -1513,7 +1521,7 @@ class Executor:
       if attr in self.world.STR_METHODS:
         sym.val_axioms()
         self.path.oblige(
-            f'{self.contract.qual}/safety/is_str_for_{attr}#{node.lineno}',
+            f'{self.contract.qual}/safety/is_str_for_{attr}#{self.at(node)}',
             sym.tag_of(obj.e) == sym.TAG['str'])
         return VPy('method', (coerce(obj, KStr), attr))
       r = self.world.val_attr(self, obj, attr, node)
@@ -1548,7 +1556,7 @@ class Executor:
 
   def get_item(self, obj, idx, node):
     if isinstance(obj, VOpt):
-      self.path.oblige(f'{self.contract.qual}/safety/subscript_not_none#{node.lineno}',
+      self.path.oblige(f'{self.contract.qual}/safety/subscript_not_none#{self.at(node)}',
                        z3.Not(obj.is_none))
       self.path.assume(z3.Not(obj.is_none))
       obj = obj.inner
@@ -1664,7 +1672,7 @@ class Executor:
       if not self.path.decide(z3.And(0 <= i, i < obj.len)):
         self.py_raise('IndexError', node)
       if isinstance(v, VOpt) and not isinstance(obj.kind.elem, KOpt):
-        self.path.oblige(f'{self.contract.qual}/safety/stored_value_not_none#{node.lineno}',
+        self.path.oblige(f'{self.contract.qual}/safety/stored_value_not_none#{self.at(node)}',
                          z3.Not(v.is_none))
         self.path.assume(z3.Not(v.is_none))
         v = v.inner
@@ -1791,7 +1799,7 @@ class Executor:
       if fn.what == 'regex_match':
         a0 = args[0]
         if isinstance(a0, VOpt):
-          self.path.oblige(f'{self.contract.qual}/safety/match_arg_not_none#{node.lineno}',
+          self.path.oblige(f'{self.contract.qual}/safety/match_arg_not_none#{self.at(node)}',
                            z3.Not(a0.is_none))
           self.path.assume(z3.Not(a0.is_none))
           a0 = a0.inner
